@@ -443,7 +443,7 @@ pub fn case(t: &mut Tape, ctx: &CaseCtx) -> CaseResult {
 pub fn run(mut run: Run) -> i32 {
     run.replay_committed(&case);
     run.shrink_ms = 20_000;
-    run.random("install histories x restarts x crash points of the first life", &[], run.n(4_000, 80_000), 300, &case);
+    run.random("install histories x restarts x crash points of the first life", &[], run.n(8_000, 100_000), 300, &case);
     run.note("crash_runs", json!(CRASH_RUNS.load(Ordering::Relaxed)));
     run.finish(
         RULE,
